@@ -6,6 +6,7 @@ import (
 	"fmt"
 	"os"
 	"path/filepath"
+	"regexp"
 	"sort"
 	"strconv"
 	"strings"
@@ -139,7 +140,7 @@ func cmdCheck(args []string) int {
 		for _, v := range er.Violations {
 			matched := false
 			for _, k := range known {
-				if k.Property == id && k.Status != "fixed" && k.Signature == v.Sig {
+				if k.Property == id && k.Status != "fixed" && sigMatch(k.Signature, v.Sig) {
 					matched = true
 					if !knownHit[k.Signature] {
 						knownHit[k.Signature] = true
@@ -188,8 +189,12 @@ func cmdCheck(args []string) int {
 	wall := time.Since(t0).Seconds()
 	writeEvidence(spec, *tier, seed, prog, results, wall, errorsAll, nviol, map[string]interface{}{"load_s": loadSecs, "known_findings_hit": len(knownHit)})
 	if len(errorsAll) > 0 {
+		seenE := map[string]bool{}
 		for _, e := range errorsAll {
-			fmt.Printf("ERROR property=%s %s\n", id, firstLine(e))
+			if !seenE[firstLine(e)] {
+				seenE[firstLine(e)] = true
+				fmt.Printf("ERROR property=%s %s\n", id, firstLine(e))
+			}
 		}
 		if exit == 0 {
 			exit = 3
@@ -321,4 +326,18 @@ func writeEvidence(spec *PropSpec, tier string, seed int, prog *Program, results
 	b, _ := json.MarshalIndent(ev, "", " ")
 	os.MkdirAll(filepath.Join(verifDir, "evidence"), 0o755)
 	os.WriteFile(filepath.Join(verifDir, "evidence", spec.ID+".json"), b, 0o644)
+}
+
+// sigMatch: a known-finding signature is either the exact violation
+// signature or, when it starts with "re:", a regular expression over it.
+func sigMatch(pat, sig string) bool {
+	if strings.HasPrefix(pat, "re:") {
+		re, err := regexp.Compile(pat[3:])
+		if err != nil {
+			fmt.Fprintln(os.Stderr, "bad known-finding regexp:", pat)
+			os.Exit(3)
+		}
+		return re.MatchString(sig)
+	}
+	return pat == sig
 }
